@@ -16,6 +16,53 @@ SANITY = [
 ]
 
 
+SNAP_DECL = """package hashprefix
+
+// VerifOnLoad, if set, runs before every load of the map pointer of a Storage.
+var VerifOnLoad func()
+
+func verifLoadSuffixes(s *Storage) *suffixMap {
+	if f := VerifOnLoad; f != nil {
+		f()
+	}
+
+	return s.hashSuffixes.Load()
+}
+"""
+
+
+def _snapshot(c):
+    """Lock-free side: a Reset executed at every load of one reader call (HashSnapshot.tla)."""
+    c.tlc_mc("HashSnapshot", "HashSnapshot_mc.cfg", name="reader of 3 prefixes (count + encode pass) against 3 resets, one load per call")
+    c.tlc_mc("HashSnapshot", "HashSnapshot_sanity.cfg", expect_violation="AtomicRead", count=False,
+             name="sanity: a load per prefix and pass")
+    ov = c.rewrite_sub("internal/filter/hashprefix/storage.go",
+                       [(r"\bs\.hashSuffixes\.Load\(\)", "verifLoadSuffixes(s)", 1)], decl=SNAP_DECL)
+    out, _ = c.go_harness("internal/filter/hashprefix", "^TestVerifC11Snapshot$", files=["c11snap_test.go"], rewrites=ov,
+                          env={"VERIF_ROUNDS": 400 if c.thorough else 40})
+    ev = read_ndjson(out)
+    fired = [e for e in ev if e["fired"]]
+    if len(fired) < 40 or not any(e["old"] != e["new"] for e in fired):
+        raise Undecided("snapshot harness vacuous: %d calls with a reset inside" % len(fired))
+    path = os.path.join(c.scratch, "c11snap.ndjson")
+    write_ndjson(path, [{"panicked": e["panicked"], "isold": e["isold"], "isnew": e["isnew"], "fired": e["fired"]} for e in ev])
+    r = c.tlc_trace("TraceHashSnapshot", "TraceHashSnapshot.cfg", path)
+    if r.tuples("STUCK"):
+        raise Undecided("snapshot trace spec stuck")
+    bad = r.tuples("NONCONF")
+    c.cov["traces_validated_against_impl"] += len(ev) - len(bad)
+    for e in ev:
+        c.count_case(("snap", e["reader"], e["k"], e["query"], tuple(e["list_old"] or []), tuple(e["list_new"] or [])),
+                     nontrivial=e["fired"] and e["old"] != e["new"])
+    for t in bad:
+        e = ev[int(t[0]) - 1]
+        c.violation({"kind": "snapshot", "reader": e["reader"], "panicked": e["panicked"]},
+                    "C11 %s with a Reset at its load no. %d (of %d): %s; list before %s, list after %s, query %s -> got %s%s; "
+                    "before-answer %s, after-answer %s" % (e["reader"], e["k"], e["loads"], t[1], e["list_old"], e["list_new"],
+                                                         e["query"], e["got"], (" PANIC " + e["panic"]) if e["panicked"] else "",
+                                                         e["old"], e["new"]), e)
+
+
 def run(c: Check):
     th = c.thorough
     # 1. design check: the implementation-shaped layer computes the contract
@@ -51,6 +98,7 @@ def run(c: Check):
     if len(behs) < 10 or nseq < len(behs) + 50:
         raise Undecided("too few sequences: %d behaviours, %d sequences" % (len(behs), nseq))
     _validate(c, ev, "hashprefix")
+    _snapshot(c)
     _validate(c, ev2, "preservice")
     _coverage(c, ev, ev2)
     c.cov["rule"] = ("a case is one observation of the real code after a sequence of Resets: a FilterRequest verdict "
